@@ -1,7 +1,1659 @@
-//! C12: not implemented yet.
-use crate::util::Args;
+//! C12: expression references are canonical and stable (patronus::expr::Context).
+//!
+//! One case = one construction history on one fresh `Context::default()`:
+//! `(case ID (ops OP..) (res R..) (obs O..) (final O..) (strings "s"..) (tf0 T F) (tf T F) (shadow V..))`
+//!   OP    one public builder call with concrete references (zero based indices), see `dump_op`
+//!   R     `(e N)` ExprRef returned, `(s N)` StringRef returned, `(p "file:line")` panic
+//!   O     `(NODE TYPE EXTRA)`: `ctx[r]` as the harness' own dump, `r.get_type(ctx)`, and the resolved
+//!         symbol name (`ctx.get_symbol_name`) or literal value (`BVLitValue::get`) + is_true/is_false/is_zero
+//!         (`obs`: at the moment the call returned; `final`: every table entry 0..n at the end)
+//!   shadow  violations found by the harness' own shadow structural map (same structure <-> same reference)
+//! Interner indices and string indices are read off the `Debug` output (the fields are private).
+use crate::dump::quote;
+use crate::exprgen::lit_value;
+use crate::rng::Rng;
+use crate::sexp::{Sexp, read_cases};
+use crate::util::*;
+use baa::{ArrayMutOps, ArrayOps, ArrayValue, BitVecMutOps, BitVecOps, BitVecValue, BitVecValueRef, SparseArrayValue, Value};
+use patronus::expr::*;
+use std::collections::{BTreeMap, HashMap, HashSet};
+use std::io::Write;
 
-pub fn run(_args: &Args) {
-    eprintln!("C12: harness module not implemented yet");
-    std::process::exit(2);
+const BINOPS: [&str; 14] = ["and", "or", "xor", "shl", "ashr", "lshr", "add", "mul", "sdiv", "udiv", "smod", "srem", "urem", "sub"];
+const WIDTHS: [u32; 24] = [1, 1, 2, 3, 4, 5, 7, 8, 8, 16, 31, 32, 33, 63, 64, 65, 100, 127, 128, 129, 192, 193, 256, 300];
+const FORGED_BASE: usize = 1 << 31;
+
+type Words = Vec<u64>;
+
+#[derive(Clone, Debug)]
+enum Op {
+    Str(String),
+    BvSym(String, u32),
+    ArrSym(String, u32, u32),
+    SymBv(usize, u32),
+    SymArr(usize, u32, u32),
+    /// bv_lit / lit(Value::BitVec): width, words of the value as handed over, how it was produced, which entry point
+    Lit { w: u32, words: Words, route: String, api: u8, via: Option<(String, Words, u64)> },
+    BitVecVal(u128, u32),
+    Zero(u32),
+    One(u32),
+    Ones(u32),
+    ZeroArr(u32, u32),
+    /// lit(Value::Array): the value (dense table or sparse default+entries)
+    LitArr { iw: u32, dw: u32, dense: Option<Vec<Words>>, default: Words, entries: Vec<(Words, Words)> },
+    True,
+    False,
+    Distinct(usize, usize),
+    Equal(usize, usize),
+    Ite(usize, usize, usize),
+    Implies(usize, usize),
+    Gt(usize, usize),
+    Sgt(usize, usize),
+    Ge(usize, usize),
+    Sge(usize, usize),
+    Not(usize),
+    Neg(usize),
+    Bin(usize, usize, usize),
+    Xor3(usize, usize, usize),
+    Maj(usize, usize, usize),
+    Concat(usize, usize),
+    Slice(usize, u32, u32),
+    Zext(usize, u32),
+    Sext(usize, u32),
+    Ext(usize, u32, bool),
+    Store(usize, usize, usize),
+    AConst(usize, u32),
+    Read(usize, usize),
+}
+
+#[derive(Clone, Debug, PartialEq)]
+enum Out {
+    E(usize),
+    S(usize),
+    P(String),
+}
+
+fn words_str(ws: &[u64]) -> String {
+    format!("({})", ws.iter().map(|w| w.to_string()).collect::<Vec<_>>().join(" "))
+}
+
+fn value_of(w: u32, words: &[u64]) -> BitVecValue {
+    BitVecValue::from(BitVecValueRef::new(words, w))
+}
+
+fn op_name(op: &Op) -> &'static str {
+    match op {
+        Op::Str(_) => "string",
+        Op::BvSym(..) => "bv_symbol",
+        Op::ArrSym(..) => "array_symbol",
+        Op::SymBv(..) => "symbol(bv)",
+        Op::SymArr(..) => "symbol(array)",
+        Op::Lit { .. } => "bv_lit",
+        Op::BitVecVal(..) => "bit_vec_val",
+        Op::Zero(_) => "zero",
+        Op::One(_) => "one",
+        Op::Ones(_) => "ones",
+        Op::ZeroArr(..) => "zero_array",
+        Op::LitArr { .. } => "lit(array)",
+        Op::True => "get_true",
+        Op::False => "get_false",
+        Op::Distinct(..) => "distinct",
+        Op::Equal(..) => "equal",
+        Op::Ite(..) => "ite",
+        Op::Implies(..) => "implies",
+        Op::Gt(..) => "greater",
+        Op::Sgt(..) => "greater_signed",
+        Op::Ge(..) => "greater_or_equal",
+        Op::Sge(..) => "greater_or_equal_signed",
+        Op::Not(_) => "not",
+        Op::Neg(_) => "negate",
+        Op::Bin(k, ..) => BINOPS[*k],
+        Op::Xor3(..) => "xor3",
+        Op::Maj(..) => "majority",
+        Op::Concat(..) => "concat",
+        Op::Slice(..) => "slice",
+        Op::Zext(..) => "zero_extend",
+        Op::Sext(..) => "sign_extend",
+        Op::Ext(..) => "extend",
+        Op::Store(..) => "array_store",
+        Op::AConst(..) => "array_const",
+        Op::Read(..) => "array_read",
+    }
+}
+
+/// `observed`: for lit(array) the (default, entries) in the order the implementation stored them
+fn dump_op(op: &Op, bld: bool, observed: Option<&(Words, Vec<(Words, Words)>)>) -> String {
+    let s = match op {
+        Op::Str(s) => format!("(str {})", quote(s)),
+        Op::BvSym(s, w) => format!("(bvsym {} {w})", quote(s)),
+        Op::ArrSym(s, iw, dw) => format!("(arrsym {} {iw} {dw})", quote(s)),
+        Op::SymBv(n, w) => format!("(symbv {n} {w})"),
+        Op::SymArr(n, iw, dw) => format!("(symarr {n} {iw} {dw})"),
+        Op::Lit { w, words, route, api, via } => match via {
+            Some((kind, src, k)) => format!("(lit {w} {} {route} {api} (via {kind} {} {k}))", words_str(words), words_str(src)),
+            None => format!("(lit {w} {} {route} {api})", words_str(words)),
+        },
+        Op::BitVecVal(v, w) => format!("(bitvecval {v} {w})"),
+        Op::Zero(w) => format!("(zero {w})"),
+        Op::One(w) => format!("(one {w})"),
+        Op::Ones(w) => format!("(ones {w})"),
+        Op::ZeroArr(iw, dw) => format!("(zeroarr {iw} {dw})"),
+        Op::LitArr { iw, dw, dense, default, entries } => {
+            let input = match dense {
+                Some(t) => format!("(dense {})", t.iter().map(|v| words_str(v)).collect::<Vec<_>>().join(" ")),
+                None => format!(
+                    "(sparse {} {})",
+                    words_str(default),
+                    entries.iter().map(|(i, d)| format!("({} {})", words_str(i), words_str(d))).collect::<Vec<_>>().join(" ")
+                ),
+            };
+            let obs = match observed {
+                Some((d, es)) => format!(
+                    "(order {} {})",
+                    words_str(d),
+                    es.iter().map(|(i, d)| format!("({} {})", words_str(i), words_str(d))).collect::<Vec<_>>().join(" ")
+                ),
+                None => "(order)".to_string(),
+            };
+            format!("(litarr {iw} {dw} {input} {obs})")
+        }
+        Op::True => "(true)".into(),
+        Op::False => "(false)".into(),
+        Op::Distinct(a, b) => format!("(distinct {a} {b})"),
+        Op::Equal(a, b) => format!("(equal {a} {b})"),
+        Op::Ite(c, t, f) => format!("(ite {c} {t} {f})"),
+        Op::Implies(a, b) => format!("(implies {a} {b})"),
+        Op::Gt(a, b) => format!("(gt {a} {b})"),
+        Op::Sgt(a, b) => format!("(sgt {a} {b})"),
+        Op::Ge(a, b) => format!("(ge {a} {b})"),
+        Op::Sge(a, b) => format!("(sge {a} {b})"),
+        Op::Not(e) => format!("(not {e})"),
+        Op::Neg(e) => format!("(neg {e})"),
+        Op::Bin(k, a, b) => format!("(bin {} {a} {b})", BINOPS[*k]),
+        Op::Xor3(a, b, c) => format!("(xor3 {a} {b} {c})"),
+        Op::Maj(a, b, c) => format!("(maj {a} {b} {c})"),
+        Op::Concat(a, b) => format!("(concat {a} {b})"),
+        Op::Slice(e, hi, lo) => format!("(slice {e} {hi} {lo})"),
+        Op::Zext(e, by) => format!("(zext {e} {by})"),
+        Op::Sext(e, by) => format!("(sext {e} {by})"),
+        Op::Ext(e, by, s) => format!("(ext {e} {by} {})", *s as u8),
+        Op::Store(a, i, d) => format!("(store {a} {i} {d})"),
+        Op::AConst(e, iw) => format!("(aconst {e} {iw})"),
+        Op::Read(a, i) => format!("(read {a} {i})"),
+    };
+    if bld { format!("(bld {s})") } else { s }
+}
+
+fn parse_words(x: &Sexp) -> Words {
+    x.list().iter().map(|a| a.atom().parse::<u64>().expect("word")).collect()
+}
+
+fn parse_op(x: &Sexp) -> (Op, bool) {
+    let l = x.list();
+    let tag = l[0].atom();
+    if tag == "bld" {
+        return (parse_op(&l[1]).0, true);
+    }
+    let u = |i: usize| l[i].atom().parse::<usize>().expect("ref");
+    let w = |i: usize| l[i].atom().parse::<u32>().expect("width");
+    let op = match tag {
+        "str" => Op::Str(l[1].atom().to_string()),
+        "bvsym" => Op::BvSym(l[1].atom().to_string(), w(2)),
+        "arrsym" => Op::ArrSym(l[1].atom().to_string(), w(2), w(3)),
+        "symbv" => Op::SymBv(u(1), w(2)),
+        "symarr" => Op::SymArr(u(1), w(2), w(3)),
+        "lit" => {
+            let via = l.get(5).map(|v| {
+                let v = v.list();
+                (v[1].atom().to_string(), parse_words(&v[2]), v[3].atom().parse::<u64>().unwrap())
+            });
+            let mut words = parse_words(&l[2]);
+            if let Some((kind, src, k)) = &via {
+                // the value is recomputed by patronus itself on every replay
+                if let Ok(Some(v)) = guarded(|| patronus_shl(kind, w(1), src, *k)) {
+                    words = v.words().to_vec();
+                }
+            }
+            Op::Lit { w: w(1), words, route: l[3].atom().to_string(), api: l[4].atom().parse().unwrap(), via }
+        }
+        "bitvecval" => Op::BitVecVal(l[1].atom().parse().unwrap(), w(2)),
+        "zero" => Op::Zero(w(1)),
+        "one" => Op::One(w(1)),
+        "ones" => Op::Ones(w(1)),
+        "zeroarr" => Op::ZeroArr(w(1), w(2)),
+        "litarr" => {
+            let input = l[3].list();
+            match input[0].atom() {
+                "dense" => Op::LitArr { iw: w(1), dw: w(2), dense: Some(input[1..].iter().map(parse_words).collect()), default: vec![], entries: vec![] },
+                _ => Op::LitArr {
+                    iw: w(1),
+                    dw: w(2),
+                    dense: None,
+                    default: parse_words(&input[1]),
+                    entries: input[2..].iter().map(|p| (parse_words(&p.list()[0]), parse_words(&p.list()[1]))).collect(),
+                },
+            }
+        }
+        "true" => Op::True,
+        "false" => Op::False,
+        "distinct" => Op::Distinct(u(1), u(2)),
+        "equal" => Op::Equal(u(1), u(2)),
+        "ite" => Op::Ite(u(1), u(2), u(3)),
+        "implies" => Op::Implies(u(1), u(2)),
+        "gt" => Op::Gt(u(1), u(2)),
+        "sgt" => Op::Sgt(u(1), u(2)),
+        "ge" => Op::Ge(u(1), u(2)),
+        "sge" => Op::Sge(u(1), u(2)),
+        "not" => Op::Not(u(1)),
+        "neg" => Op::Neg(u(1)),
+        "bin" => Op::Bin(BINOPS.iter().position(|b| *b == l[1].atom()).expect("binop"), u(2), u(3)),
+        "xor3" => Op::Xor3(u(1), u(2), u(3)),
+        "maj" => Op::Maj(u(1), u(2), u(3)),
+        "concat" => Op::Concat(u(1), u(2)),
+        "slice" => Op::Slice(u(1), w(2), w(3)),
+        "zext" => Op::Zext(u(1), w(2)),
+        "sext" => Op::Sext(u(1), w(2)),
+        "ext" => Op::Ext(u(1), w(2), l[3].atom() == "1"),
+        "store" => Op::Store(u(1), u(2), u(3)),
+        "aconst" => Op::AConst(u(1), w(2)),
+        "read" => Op::Read(u(1), u(2)),
+        other => panic!("unknown op {other}"),
+    };
+    (op, false)
+}
+
+// ------------------------------------------------------------------ observation
+fn sref_index(r: StringRef) -> usize {
+    let d = format!("{:?}", r); // StringRef(N)
+    d[d.find('(').unwrap() + 1..d.len() - 1].parse().expect("StringRef debug format")
+}
+
+fn lit_index(e: &Expr) -> u64 {
+    let d = format!("{:?}", e); // BVLiteral(BVLitValue(BitVecValueIndex { width: W, index: I }))
+    let i = d.find("index: ").expect("BitVecValueIndex debug format") + 7;
+    let rest = &d[i..];
+    let end = rest.find(|c: char| !c.is_ascii_digit()).unwrap_or(rest.len());
+    rest[..end].parse().unwrap()
+}
+
+fn x(e: &ExprRef) -> usize {
+    usize::from(*e)
+}
+
+/// (node dump mirroring `Expr`, name reference if any)
+fn node_dump(ctx: &Context, r: ExprRef) -> String {
+    match &ctx[r] {
+        Expr::BVSymbol { name, width } => format!("(bvsym {} {width})", sref_index(*name)),
+        e @ Expr::BVLiteral(v) => format!("(lit {} {})", lit_index(e), v.width()),
+        Expr::BVZeroExt { e, by, width } => format!("(zext {} {by} {width})", x(e)),
+        Expr::BVSignExt { e, by, width } => format!("(sext {} {by} {width})", x(e)),
+        Expr::BVSlice { e, hi, lo } => format!("(slice {} {hi} {lo})", x(e)),
+        Expr::BVNot(e, w) => format!("(not {} {w})", x(e)),
+        Expr::BVNegate(e, w) => format!("(neg {} {w})", x(e)),
+        Expr::BVEqual(a, b) => format!("(eq {} {})", x(a), x(b)),
+        Expr::BVImplies(a, b) => format!("(implies {} {})", x(a), x(b)),
+        Expr::BVGreater(a, b) => format!("(ugt {} {})", x(a), x(b)),
+        Expr::BVGreaterSigned(a, b, w) => format!("(sgt {} {} {w})", x(a), x(b)),
+        Expr::BVGreaterEqual(a, b) => format!("(uge {} {})", x(a), x(b)),
+        Expr::BVGreaterEqualSigned(a, b, w) => format!("(sge {} {} {w})", x(a), x(b)),
+        Expr::BVConcat(a, b, w) => format!("(concat {} {} {w})", x(a), x(b)),
+        Expr::BVAnd(a, b, w) => format!("(bin and {} {} {w})", x(a), x(b)),
+        Expr::BVOr(a, b, w) => format!("(bin or {} {} {w})", x(a), x(b)),
+        Expr::BVXor(a, b, w) => format!("(bin xor {} {} {w})", x(a), x(b)),
+        Expr::BVShiftLeft(a, b, w) => format!("(bin shl {} {} {w})", x(a), x(b)),
+        Expr::BVArithmeticShiftRight(a, b, w) => format!("(bin ashr {} {} {w})", x(a), x(b)),
+        Expr::BVShiftRight(a, b, w) => format!("(bin lshr {} {} {w})", x(a), x(b)),
+        Expr::BVAdd(a, b, w) => format!("(bin add {} {} {w})", x(a), x(b)),
+        Expr::BVMul(a, b, w) => format!("(bin mul {} {} {w})", x(a), x(b)),
+        Expr::BVSignedDiv(a, b, w) => format!("(bin sdiv {} {} {w})", x(a), x(b)),
+        Expr::BVUnsignedDiv(a, b, w) => format!("(bin udiv {} {} {w})", x(a), x(b)),
+        Expr::BVSignedMod(a, b, w) => format!("(bin smod {} {} {w})", x(a), x(b)),
+        Expr::BVSignedRem(a, b, w) => format!("(bin srem {} {} {w})", x(a), x(b)),
+        Expr::BVUnsignedRem(a, b, w) => format!("(bin urem {} {} {w})", x(a), x(b)),
+        Expr::BVSub(a, b, w) => format!("(bin sub {} {} {w})", x(a), x(b)),
+        Expr::BVArrayRead { array, index, width } => format!("(read {} {} {width})", x(array), x(index)),
+        Expr::BVIte { cond, tru, fals } => format!("(ite {} {} {})", x(cond), x(tru), x(fals)),
+        Expr::ArraySymbol { name, index_width, data_width } => format!("(arrsym {} {index_width} {data_width})", sref_index(*name)),
+        Expr::ArrayConstant { e, index_width, data_width } => format!("(aconst {} {index_width} {data_width})", x(e)),
+        Expr::ArrayEqual(a, b) => format!("(aeq {} {})", x(a), x(b)),
+        Expr::ArrayStore { array, index, data } => format!("(store {} {} {})", x(array), x(index), x(data)),
+        Expr::ArrayIte { cond, tru, fals } => format!("(aite {} {} {})", x(cond), x(tru), x(fals)),
+    }
+}
+
+fn type_dump(ctx: &Context, r: ExprRef) -> String {
+    match guarded(|| r.get_type(ctx)) {
+        Ok(Type::BV(w)) => format!("(bv {w})"),
+        Ok(Type::Array(a)) => format!("(arr {} {})", a.index_width, a.data_width),
+        Err(_) => "(p)".to_string(),
+    }
+}
+
+fn extra_dump(ctx: &Context, r: ExprRef) -> String {
+    match &ctx[r] {
+        Expr::BVSymbol { .. } | Expr::ArraySymbol { .. } => match ctx.get_symbol_name(r) {
+            Some(n) => format!("(name {})", quote(n)),
+            None => "(noname)".into(),
+        },
+        e @ Expr::BVLiteral(v) => {
+            let val = v.get(ctx);
+            format!("(val {} {} {} {} {})", val.width(), words_str(val.words()), e.is_true() as u8, e.is_false() as u8, ctx.is_zero(r) as u8)
+        }
+        _ => "-".into(),
+    }
+}
+
+fn observe(ctx: &Context, r: ExprRef) -> String {
+    format!("({} {} {})", node_dump(ctx, r), type_dump(ctx, r), extra_dump(ctx, r))
+}
+
+/// the structural key of the property text: operator, operand references, widths, literal VALUE, symbol NAME and type
+fn structural_key(ctx: &Context, r: ExprRef) -> String {
+    match &ctx[r] {
+        Expr::BVSymbol { width, .. } => format!("(bvsym {} {width})", quote(ctx.get_symbol_name(r).unwrap_or("?"))),
+        Expr::ArraySymbol { index_width, data_width, .. } => {
+            format!("(arrsym {} {index_width} {data_width})", quote(ctx.get_symbol_name(r).unwrap_or("?")))
+        }
+        Expr::BVLiteral(v) => format!("(lit {} b{})", v.width(), v.get(ctx).to_bit_str()),
+        _ => node_dump(ctx, r),
+    }
+}
+
+// ------------------------------------------------------------------ running one history
+struct Run {
+    ctx: Context,
+    srefs: Vec<Option<StringRef>>,
+    strings: Vec<Option<String>>,
+    shadow_by_key: HashMap<String, usize>,
+    shadow_by_ref: HashMap<usize, String>,
+    violations: Vec<String>,
+    ops_txt: Vec<String>,
+    res_txt: Vec<String>,
+    obs_txt: Vec<String>,
+    /// number of table entries (lower bound: highest index seen + 1)
+    known_len: usize,
+}
+
+impl Run {
+    fn new() -> Run {
+        Run {
+            ctx: Context::default(),
+            srefs: vec![],
+            strings: vec![],
+            shadow_by_key: HashMap::new(),
+            shadow_by_ref: HashMap::new(),
+            violations: vec![],
+            ops_txt: vec![],
+            res_txt: vec![],
+            obs_txt: vec![],
+            known_len: 2,
+        }
+    }
+
+    fn note_sref(&mut self, r: StringRef) {
+        let i = sref_index(r);
+        if self.srefs.len() <= i {
+            self.srefs.resize(i + 1, None);
+            self.strings.resize(i + 1, None);
+        }
+        self.srefs[i] = Some(r);
+        let s = self.ctx[r].clone();
+        match &self.strings[i] {
+            Some(old) if *old != s => self.violations.push(format!("(string-changed {i} {} {})", quote(old), quote(&s))),
+            _ => {}
+        }
+        self.strings[i] = Some(s);
+    }
+
+    fn shadow_check(&mut self, r: usize) {
+        let key = structural_key(&self.ctx, ExprRef::from(r));
+        match self.shadow_by_key.get(&key) {
+            Some(&r0) if r0 != r => self.violations.push(format!("(same-structure-two-refs {} {r0} {r})", quote(&key))),
+            Some(_) => {}
+            None => {
+                self.shadow_by_key.insert(key.clone(), r);
+            }
+        }
+        match self.shadow_by_ref.get(&r) {
+            Some(k0) if *k0 != key => self.violations.push(format!("(ref-changed-structure {r} {} {})", quote(k0), quote(&key))),
+            Some(_) => {}
+            None => {
+                self.shadow_by_ref.insert(r, key);
+            }
+        }
+    }
+
+    fn step(&mut self, op: &Op, bld: bool) -> Out {
+        let srefs = self.srefs.clone();
+        let ctx = &mut self.ctx;
+        let r = guarded(|| apply(ctx, op, bld, &srefs));
+        let out = match r {
+            Ok(Ok(e)) => Out::E(usize::from(e)),
+            Ok(Err(s)) => {
+                let i = sref_index(s);
+                Out::S(i)
+            }
+            Err(_) => Out::P(last_panic_loc()),
+        };
+        let mut observed = None;
+        match &out {
+            Out::E(r) if {
+                // zero_extend(e, 0) & co. hand back their argument unchecked: the result can be a dangling reference
+                let ctx = &self.ctx;
+                let er = ExprRef::from(*r);
+                guarded(|| {
+                    let _ = &ctx[er];
+                })
+                .is_err()
+            } =>
+            {
+                self.obs_txt.push("dangling".into());
+            }
+            Out::E(r) => {
+                self.known_len = self.known_len.max(r + 1);
+                let er = ExprRef::from(*r);
+                self.obs_txt.push(observe(&self.ctx, er));
+                self.shadow_check(*r);
+                if let Some(Expr::BVSymbol { name, .. } | Expr::ArraySymbol { name, .. }) = Some(&self.ctx[er]) {
+                    let n = *name;
+                    self.note_sref(n);
+                }
+                if let Op::LitArr { .. } = op {
+                    observed = Some(read_back_array(&self.ctx, er));
+                }
+            }
+            Out::S(i) => {
+                // a StringRef can only come from `string`
+                if let Ok(Err(s)) = r {
+                    self.note_sref(s);
+                }
+                let _ = i;
+                self.obs_txt.push("-".into());
+            }
+            Out::P(_) => self.obs_txt.push("-".into()),
+        }
+        self.ops_txt.push(dump_op(op, bld, observed.as_ref()));
+        self.res_txt.push(match &out {
+            Out::E(r) => format!("(e {r})"),
+            Out::S(r) => format!("(s {r})"),
+            Out::P(l) => format!("(p {})", quote(l)),
+        });
+        out
+    }
+
+    fn table_len(&mut self) -> usize {
+        // there is no public len(): probe until `ctx[r]` panics
+        let mut n = self.known_len;
+        loop {
+            let ctx = &self.ctx;
+            if guarded(|| {
+                let _ = &ctx[ExprRef::from(n)];
+            })
+            .is_err()
+            {
+                break;
+            }
+            n += 1;
+        }
+        self.known_len = n;
+        n
+    }
+
+    fn finish(mut self, id: &str, tf0: (usize, usize)) -> String {
+        let n = self.table_len();
+        let mut fin = Vec::with_capacity(n);
+        for r in 0..n {
+            let er = ExprRef::from(r);
+            fin.push(observe(&self.ctx, er));
+            self.shadow_check(r);
+            if let Expr::BVSymbol { name, .. } | Expr::ArraySymbol { name, .. } = &self.ctx[er] {
+                let nm = *name;
+                self.note_sref(nm);
+            }
+        }
+        // strings: re-read every known reference at the end
+        let mut strs = vec![];
+        for i in 0..self.srefs.len() {
+            match self.srefs[i] {
+                Some(r) => {
+                    let now = self.ctx[r].clone();
+                    if let Some(old) = &self.strings[i] {
+                        if *old != now {
+                            self.violations.push(format!("(string-changed {i} {} {})", quote(old), quote(&now)));
+                        }
+                    }
+                    strs.push(quote(&now));
+                }
+                None => strs.push("?".into()),
+            }
+        }
+        let t = usize::from(self.ctx.get_true());
+        let f = usize::from(self.ctx.get_false());
+        // a few references unfolded into trees by the shared tree dumper (sharing expanded; small trees only)
+        let mut trees = vec![];
+        let step = (n / 24).max(1);
+        for r in (0..n).rev().step_by(step).take(24) {
+            let ctx = &self.ctx;
+            let er = ExprRef::from(r);
+            if let Ok(size) = guarded(|| crate::dump::tree_size(ctx, er, 300)) {
+                if size <= 300 {
+                    if let Ok(tree) = guarded(|| crate::dump::dump_expr(ctx, er)) {
+                        trees.push(format!("({r} {tree})"));
+                    }
+                }
+            }
+        }
+        format!(
+            "(case {id} (ops {}) (res {}) (obs {}) (final {}) (strings {}) (tf0 {} {}) (tf {t} {f}) (trees {}) (shadow {}))",
+            self.ops_txt.join(" "),
+            self.res_txt.join(" "),
+            self.obs_txt.join(" "),
+            fin.join(" "),
+            strs.join(" "),
+            tf0.0,
+            tf0.1,
+            trees.join(" "),
+            self.violations.join(" ")
+        )
+    }
+}
+
+/// walk a `lit(array)` result: (default words, stores in the order they were applied)
+fn read_back_array(ctx: &Context, r: ExprRef) -> (Words, Vec<(Words, Words)>) {
+    let lit_words = |e: ExprRef| -> Words {
+        match &ctx[e] {
+            Expr::BVLiteral(v) => v.get(ctx).words().to_vec(),
+            _ => vec![],
+        }
+    };
+    let mut stores = vec![];
+    let mut cur = r;
+    loop {
+        match &ctx[cur] {
+            Expr::ArrayStore { array, index, data } => {
+                stores.push((lit_words(*index), lit_words(*data)));
+                cur = *array;
+            }
+            Expr::ArrayConstant { e, .. } => {
+                stores.reverse();
+                return (lit_words(*e), stores);
+            }
+            _ => return (vec![], stores),
+        }
+    }
+}
+
+fn build_array(iw: u32, dw: u32, dense: &Option<Vec<Words>>, default: &Words, entries: &[(Words, Words)]) -> ArrayValue {
+    match dense {
+        Some(table) => {
+            let mut a = ArrayValue::new_dense(iw, &value_of(dw, &table[0]));
+            for (i, v) in table.iter().enumerate() {
+                a.store(&BitVecValue::from_u64(i as u64, iw), &value_of(dw, v));
+            }
+            a
+        }
+        None => {
+            let mut a = ArrayValue::new_sparse(iw, &value_of(dw, default));
+            for (i, d) in entries.iter() {
+                a.store(&value_of(iw, i), &value_of(dw, d));
+            }
+            a
+        }
+    }
+}
+
+/// Ok(Ok(expr)) | Ok(Err(string ref)); panics propagate to `guarded`
+fn apply(ctx: &mut Context, op: &Op, bld: bool, srefs: &[Option<StringRef>]) -> Result<ExprRef, StringRef> {
+    let e = |i: &usize| ExprRef::from(*i);
+    let r = match op {
+        Op::Str(s) => return Err(ctx.string(s.as_str().into())),
+        Op::BvSym(s, w) => {
+            if bld {
+                ctx.build(|b| b.bv_symbol(s, *w))
+            } else {
+                ctx.bv_symbol(s, *w)
+            }
+        }
+        Op::ArrSym(s, iw, dw) => ctx.array_symbol(s, *iw, *dw),
+        Op::SymBv(n, w) => {
+            let name = srefs[*n].expect("known string ref");
+            if bld { ctx.build(|b| b.symbol(name, Type::BV(*w))) } else { ctx.symbol(name, Type::BV(*w)) }
+        }
+        Op::SymArr(n, iw, dw) => {
+            let name = srefs[*n].expect("known string ref");
+            ctx.symbol(name, Type::Array(ArrayType { index_width: *iw, data_width: *dw }))
+        }
+        Op::Lit { w, words, api, .. } => {
+            let v = value_of(*w, words);
+            match (api, bld) {
+                (_, true) => ctx.build(|b| b.bv_lit(&v)),
+                (1, _) => ctx.lit(Value::BitVec(v)),
+                (2, _) => ctx.bv_lit(BitVecValueRef::new(words, *w)),
+                (3, _) => ctx.lit(&Value::BitVec(v)),
+                _ => ctx.bv_lit(&v),
+            }
+        }
+        Op::BitVecVal(v, w) => {
+            if bld { ctx.build(|b| b.bit_vec_val(*v, *w)) } else { ctx.bit_vec_val(*v, *w) }
+        }
+        Op::Zero(w) => {
+            if bld { ctx.build(|b| b.zero(*w)) } else { ctx.zero(*w) }
+        }
+        Op::One(w) => {
+            if bld { ctx.build(|b| b.one(*w)) } else { ctx.one(*w) }
+        }
+        Op::Ones(w) => {
+            if bld { ctx.build(|b| b.ones(*w)) } else { ctx.ones(*w) }
+        }
+        Op::ZeroArr(iw, dw) => {
+            let t = ArrayType { index_width: *iw, data_width: *dw };
+            if bld { ctx.build(|b| b.zero_array(t)) } else { ctx.zero_array(t) }
+        }
+        Op::LitArr { iw, dw, dense, default, entries } => {
+            let a = build_array(*iw, *dw, dense, default, entries);
+            ctx.lit(Value::Array(a))
+        }
+        Op::True => {
+            if bld { ctx.build(|b| b.get_true()) } else { ctx.get_true() }
+        }
+        Op::False => {
+            if bld { ctx.build(|b| b.get_false()) } else { ctx.get_false() }
+        }
+        Op::Distinct(a, b) => ctx.distinct(e(a), e(b)),
+        Op::Equal(a, b) => {
+            if bld { ctx.build(|x| x.equal(e(a), e(b))) } else { ctx.equal(e(a), e(b)) }
+        }
+        Op::Ite(c, t, f) => {
+            if bld { ctx.build(|x| x.ite(e(c), e(t), e(f))) } else { ctx.ite(e(c), e(t), e(f)) }
+        }
+        Op::Implies(a, b) => {
+            if bld { ctx.build(|x| x.implies(e(a), e(b))) } else { ctx.implies(e(a), e(b)) }
+        }
+        Op::Gt(a, b) => {
+            if bld { ctx.build(|x| x.greater(e(a), e(b))) } else { ctx.greater(e(a), e(b)) }
+        }
+        Op::Sgt(a, b) => {
+            if bld { ctx.build(|x| x.greater_signed(e(a), e(b))) } else { ctx.greater_signed(e(a), e(b)) }
+        }
+        Op::Ge(a, b) => {
+            if bld { ctx.build(|x| x.greater_or_equal(e(a), e(b))) } else { ctx.greater_or_equal(e(a), e(b)) }
+        }
+        Op::Sge(a, b) => {
+            if bld {
+                ctx.build(|x| x.greater_or_equal_signed(e(a), e(b)))
+            } else {
+                ctx.greater_or_equal_signed(e(a), e(b))
+            }
+        }
+        Op::Not(a) => {
+            if bld { ctx.build(|x| x.not(e(a))) } else { ctx.not(e(a)) }
+        }
+        Op::Neg(a) => {
+            if bld { ctx.build(|x| x.negate(e(a))) } else { ctx.negate(e(a)) }
+        }
+        Op::Bin(k, a, b) => {
+            let (a, b) = (e(a), e(b));
+            if bld {
+                ctx.build(|x| match *k {
+                    0 => x.and(a, b),
+                    1 => x.or(a, b),
+                    2 => x.xor(a, b),
+                    3 => x.shift_left(a, b),
+                    4 => x.arithmetic_shift_right(a, b),
+                    5 => x.shift_right(a, b),
+                    6 => x.add(a, b),
+                    7 => x.mul(a, b),
+                    8 => x.signed_div(a, b),
+                    9 => x.div(a, b),
+                    10 => x.signed_mod(a, b),
+                    11 => x.signed_remainder(a, b),
+                    12 => x.remainder(a, b),
+                    _ => x.sub(a, b),
+                })
+            } else {
+                match *k {
+                    0 => ctx.and(a, b),
+                    1 => ctx.or(a, b),
+                    2 => ctx.xor(a, b),
+                    3 => ctx.shift_left(a, b),
+                    4 => ctx.arithmetic_shift_right(a, b),
+                    5 => ctx.shift_right(a, b),
+                    6 => ctx.add(a, b),
+                    7 => ctx.mul(a, b),
+                    8 => ctx.signed_div(a, b),
+                    9 => ctx.div(a, b),
+                    10 => ctx.signed_mod(a, b),
+                    11 => ctx.signed_remainder(a, b),
+                    12 => ctx.remainder(a, b),
+                    _ => ctx.sub(a, b),
+                }
+            }
+        }
+        Op::Xor3(a, b, c) => {
+            if bld { ctx.build(|mut x| x.xor3(e(a), e(b), e(c))) } else { ctx.xor3(e(a), e(b), e(c)) }
+        }
+        Op::Maj(a, b, c) => {
+            if bld { ctx.build(|mut x| x.majority(e(a), e(b), e(c))) } else { ctx.majority(e(a), e(b), e(c)) }
+        }
+        Op::Concat(a, b) => {
+            if bld { ctx.build(|x| x.concat(e(a), e(b))) } else { ctx.concat(e(a), e(b)) }
+        }
+        Op::Slice(a, hi, lo) => {
+            if bld { ctx.build(|x| x.slice(e(a), *hi, *lo)) } else { ctx.slice(e(a), *hi, *lo) }
+        }
+        Op::Zext(a, by) => {
+            if bld { ctx.build(|x| x.zero_extend(e(a), *by)) } else { ctx.zero_extend(e(a), *by) }
+        }
+        Op::Sext(a, by) => {
+            if bld { ctx.build(|x| x.sign_extend(e(a), *by)) } else { ctx.sign_extend(e(a), *by) }
+        }
+        Op::Ext(a, by, s) => {
+            if bld { ctx.build(|mut x| x.extend(e(a), *by, *s)) } else { ctx.extend(e(a), *by, *s) }
+        }
+        Op::Store(a, i, d) => {
+            if bld { ctx.build(|x| x.array_store(e(a), e(i), e(d))) } else { ctx.array_store(e(a), e(i), e(d)) }
+        }
+        Op::AConst(a, iw) => {
+            if bld { ctx.build(|x| x.array_const(e(a), *iw)) } else { ctx.array_const(e(a), *iw) }
+        }
+        Op::Read(a, i) => {
+            if bld { ctx.build(|x| x.array_read(e(a), e(i))) } else { ctx.array_read(e(a), e(i)) }
+        }
+    };
+    Ok(r)
+}
+
+/// `src << k` at width w as patronus computes it: constant folding (`simplify_shl`) or evaluation (`eval_shl`)
+fn patronus_shl(kind: &str, w: u32, src: &[u64], k: u64) -> Option<BitVecValue> {
+    let mut scratch = Context::default();
+    let (a, b) = (scratch.bv_lit(&value_of(w, src)), scratch.bv_lit(&BitVecValue::from_u64(k, w)));
+    let e = scratch.shift_left(a, b);
+    if kind == "eval_shl" {
+        Some(eval_bv_expr(&scratch, &SymbolValueStore::default(), e))
+    } else {
+        let r = simplify_single_expression(&mut scratch, e);
+        match &scratch[r] {
+            Expr::BVLiteral(v) => Some(BitVecValue::from(v.get(&scratch))),
+            _ => None,
+        }
+    }
+}
+
+// ------------------------------------------------------------------ literal values by many routes
+fn from_bits(bits: &str) -> BitVecValue {
+    BitVecValue::from_bit_str(bits).unwrap()
+}
+
+fn rand_bits(rng: &mut Rng, n: usize) -> String {
+    (0..n).map(|_| if rng.chance(1, 2) { '1' } else { '0' }).collect()
+}
+
+const ROUTES: [&str; 33] = [
+    "direct", "u64", "u128", "add", "sub", "xor", "and", "or", "not", "neg", "concat", "slice", "zext", "sext", "shl", "lshr",
+    "ashr", "mul", "i64", "bytes", "array", "zero_ones", "refclone", "setbits", "hex", "slice_lo", "shl_words", "simplify_shl", "eval_shl", "eval_random", "eval_random", "simplify_random", "simplify_random",
+];
+
+/// produce the value with bit string `bits` (msb first) by the given computation; None = route not applicable
+fn value_via(rng: &mut Rng, bits: &str, route: &str, label: &mut String, via: &mut Option<(String, Words, u64)>) -> Option<BitVecValue> {
+    let w = bits.len() as u32;
+    let target = from_bits(bits);
+    let lead0 = bits.bytes().take_while(|b| *b == b'0').count();
+    let lead_same = bits.bytes().take_while(|b| *b == bits.as_bytes()[0]).count();
+    let trail0 = bits.bytes().rev().take_while(|b| *b == b'0').count();
+    let r = match route {
+        "direct" => target.clone(),
+        "u64" => BitVecValue::from_u64(target.to_u64()?, w),
+        "u128" => {
+            if w > 128 && lead0 < (w as usize - 128) {
+                return None;
+            }
+            let mut v: u128 = 0;
+            for b in bits.bytes() {
+                v = (v << 1) | (b == b'1') as u128;
+            }
+            BitVecValue::from_u128(v, w)
+        }
+        "add" => {
+            let a = from_bits(&rand_bits(rng, w as usize));
+            let b = target.sub(&a);
+            a.add(&b)
+        }
+        "sub" => {
+            let a = from_bits(&rand_bits(rng, w as usize));
+            let b = a.sub(&target);
+            a.sub(&b)
+        }
+        "xor" => {
+            let a = from_bits(&rand_bits(rng, w as usize));
+            let b = target.xor(&a);
+            a.xor(&b)
+        }
+        "and" | "or" => {
+            let m = rand_bits(rng, w as usize);
+            // and: (t | m) & (t | !m) = t        or: (t & m) | (t & !m) = t
+            let pick = |keep_if: u8, fill: u8| -> String {
+                bits.bytes().zip(m.bytes()).map(|(t, mm)| if mm == keep_if { t as char } else { fill as char }).collect()
+            };
+            if route == "and" {
+                from_bits(&pick(b'0', b'1')).and(&from_bits(&pick(b'1', b'1')))
+            } else {
+                from_bits(&pick(b'0', b'0')).or(&from_bits(&pick(b'1', b'0')))
+            }
+        }
+        "not" => {
+            let flipped: String = bits.bytes().map(|b| if b == b'1' { '0' } else { '1' }).collect();
+            from_bits(&flipped).not()
+        }
+        "neg" => target.negate().negate(),
+        "concat" => {
+            if w < 2 {
+                return None;
+            }
+            let k = rng.range(1, w as u64 - 1) as usize;
+            from_bits(&bits[..k]).concat(&from_bits(&bits[k..]))
+        }
+        "slice" => {
+            let p = rng.below(70) as usize;
+            let s = rng.below(70) as usize;
+            let big = format!("{}{}{}", rand_bits(rng, p), bits, rand_bits(rng, s));
+            from_bits(&big).slice(s as u32 + w - 1, s as u32)
+        }
+        "slice_lo" => {
+            let p = rng.range(1, 130) as usize;
+            let big = format!("{}{}", rand_bits(rng, p), bits);
+            from_bits(&big).slice(w - 1, 0)
+        }
+        "zext" => {
+            if lead0 == 0 || w < 2 {
+                return None;
+            }
+            let k = rng.range(1, lead0.min(w as usize - 1) as u64) as usize;
+            from_bits(&bits[k..]).zero_extend(k as u32)
+        }
+        "sext" => {
+            if lead_same < 2 {
+                return None;
+            }
+            let k = rng.range(1, (lead_same - 1).min(w as usize - 1) as u64) as usize;
+            from_bits(&bits[k..]).sign_extend(k as u32)
+        }
+        "shl" | "shl_words" | "simplify_shl" | "eval_shl" => {
+            if trail0 == 0 || w < 2 {
+                return None;
+            }
+            let kmax = trail0.min(w as usize - 1);
+            let k = if route == "shl_words" {
+                // whole-word shifts: the amount is a multiple of 64
+                if kmax < 64 {
+                    return None;
+                }
+                64 * rng.range(1, kmax as u64 / 64) as usize
+            } else {
+                rng.range(1, kmax as u64) as usize
+            };
+            if route == "shl" && k % 64 == 0 {
+                return None;
+            }
+            if w < 64 && (k as u64) >= (1u64 << w) {
+                return None;
+            }
+            let src = from_bits(&format!("{}{}", rand_bits(rng, k), &bits[..w as usize - k]));
+            let amount = BitVecValue::from_u64(k as u64, w);
+            match route {
+                "simplify_shl" | "eval_shl" => {
+                    // the value as patronus itself computes it (constant folding / concrete evaluation)
+                    if k % 64 == 0 {
+                        label.push_str("_words");
+                    }
+                    *via = Some((route.to_string(), src.words().to_vec(), k as u64));
+                    patronus_shl(route, w, src.words(), k as u64)?
+                }
+                _ => src.shift_left(&amount),
+            }
+        }
+        "lshr" | "ashr" => {
+            let run = if route == "lshr" { lead0 } else { lead_same.saturating_sub(1) };
+            if run == 0 || w < 2 {
+                return None;
+            }
+            let k = rng.range(1, run.min(w as usize - 1) as u64) as usize;
+            if w < 64 && (k as u64) >= (1u64 << w) {
+                return None;
+            }
+            let src = format!("{}{}", &bits[k..], rand_bits(rng, k));
+            let amount = BitVecValue::from_u64(k as u64, w);
+            if route == "lshr" { from_bits(&src).shift_right(&amount) } else { from_bits(&src).arithmetic_shift_right(&amount) }
+        }
+        "mul" => {
+            if w > 128 {
+                return None;
+            }
+            target.mul(&BitVecValue::from_u64(1, w))
+        }
+        "i64" => {
+            if w > 64 {
+                return None;
+            }
+            let u = target.to_u64()?;
+            let signed = if w == 64 { u as i64 } else if (u >> (w - 1)) & 1 == 1 { (u as i64) - (1i64 << w) } else { u as i64 };
+            BitVecValue::from_i64(signed, w)
+        }
+        "bytes" => BitVecValue::from_bytes_le(&target.to_bytes_le(), w),
+        "array" => {
+            let mut a = ArrayValue::new_sparse(3, &BitVecValue::zero(w));
+            let i = BitVecValue::from_u64(rng.below(8), 3);
+            a.store(&i, &target);
+            a.select(&i)
+        }
+        "zero_ones" => {
+            if bits.bytes().all(|b| b == b'0') {
+                BitVecValue::zero(w)
+            } else if bits.bytes().all(|b| b == b'1') {
+                BitVecValue::ones(w)
+            } else {
+                return None;
+            }
+        }
+        "eval_random" | "simplify_random" => {
+            // an arbitrary value of width w: a random operator applied to random literals, computed by
+            // patronus' evaluator or constant folder (the target bits are ignored)
+            let mut scratch = Context::default();
+            let lit = |c: &mut Context, rng: &mut Rng, w: u32| {
+                let v = lit_value(rng, w);
+                c.bv_lit(&v)
+            };
+            let opk = rng.below(16);
+            let e = match opk {
+                0..=8 => {
+                    let a = lit(&mut scratch, rng, w);
+                    let mut whole_words = false;
+                    let b = if (3..=5).contains(&opk) {
+                        let v = if w > 64 && rng.chance(1, 4) {
+                            BitVecValue::from_u64(64 * rng.range(1, (w as u64 - 1) / 64), w)
+                        } else {
+                            crate::exprgen::shift_amount(rng, w)
+                        };
+                        whole_words = matches!(v.to_u64(), Some(k) if k > 0 && k % 64 == 0 && k < w as u64);
+                        scratch.bv_lit(&v)
+                    } else {
+                        lit(&mut scratch, rng, w)
+                    };
+                    label.push_str(["_add", "_sub", "_xor", "_shl", "_lshr", "_ashr", "_and", "_or", "_mul"][opk as usize]);
+                    if whole_words {
+                        label.push_str("_words");
+                    }
+                    match opk {
+                        0 => scratch.add(a, b),
+                        1 => scratch.sub(a, b),
+                        2 => scratch.xor(a, b),
+                        3 => scratch.shift_left(a, b),
+                        4 => scratch.shift_right(a, b),
+                        5 => scratch.arithmetic_shift_right(a, b),
+                        6 => scratch.and(a, b),
+                        7 => scratch.or(a, b),
+                        _ => {
+                            if w > 64 {
+                                return None;
+                            }
+                            scratch.mul(a, b)
+                        }
+                    }
+                }
+                9 => {
+                    label.push_str("_not");
+                    let a = lit(&mut scratch, rng, w);
+                    scratch.not(a)
+                }
+                10 => {
+                    label.push_str("_neg");
+                    let a = lit(&mut scratch, rng, w);
+                    scratch.negate(a)
+                }
+                11 => {
+                    if w < 2 {
+                        return None;
+                    }
+                    label.push_str("_concat");
+                    let k = rng.range(1, w as u64 - 1) as u32;
+                    let (a, b) = (lit(&mut scratch, rng, k), lit(&mut scratch, rng, w - k));
+                    scratch.concat(a, b)
+                }
+                12 => {
+                    label.push_str("_slice");
+                    let (p, q) = (rng.below(130) as u32, rng.below(130) as u32);
+                    let a = lit(&mut scratch, rng, p + w + q);
+                    scratch.slice(a, q + w - 1, q)
+                }
+                13 | 14 => {
+                    if w < 2 {
+                        return None;
+                    }
+                    label.push_str(if opk == 13 { "_zext" } else { "_sext" });
+                    let k = rng.range(1, w as u64 - 1) as u32;
+                    let a = lit(&mut scratch, rng, w - k);
+                    if opk == 13 { scratch.zero_extend(a, k) } else { scratch.sign_extend(a, k) }
+                }
+                _ => {
+                    label.push_str("_ite");
+                    let c = lit(&mut scratch, rng, 1);
+                    let (a, b) = (lit(&mut scratch, rng, w), lit(&mut scratch, rng, w));
+                    scratch.ite(c, a, b)
+                }
+            };
+            if route == "eval_random" {
+                eval_bv_expr(&scratch, &SymbolValueStore::default(), e)
+            } else {
+                let r = simplify_single_expression(&mut scratch, e);
+                match &scratch[r] {
+                    Expr::BVLiteral(v) => BitVecValue::from(v.get(&scratch)),
+                    _ => return None,
+                }
+            }
+        }
+        "refclone" => BitVecValue::from(BitVecValueRef::from(&target)),
+        "setbits" => {
+            let mut v = BitVecValue::ones(w);
+            for (i, b) in bits.bytes().rev().enumerate() {
+                if b == b'0' {
+                    v.clear_bit(i as u32);
+                }
+            }
+            v
+        }
+        "hex" => {
+            let hex = target.to_hex_str();
+            BitVecValue::from_str_radix(&hex, 16, w).ok()?
+        }
+        _ => return None,
+    };
+    Some(r)
+}
+
+// ------------------------------------------------------------------ generator
+struct Gen<'a> {
+    rng: &'a mut Rng,
+    run: Run,
+    history: Vec<(Op, bool, usize)>, // op, via builder, table size when first issued
+    bv: BTreeMap<u32, Vec<usize>>,
+    arr: BTreeMap<(u32, u32), Vec<usize>>,
+    all: Vec<usize>,
+    pooled: HashSet<usize>,
+    names: Vec<String>,
+    targets: BTreeMap<u32, Vec<String>>,
+    fresh: u64,
+    /// share (per 1000) of ill-typed / forged calls
+    ill: u64,
+}
+
+impl<'a> Gen<'a> {
+    fn pool(&mut self, r: usize) {
+        if !self.pooled.insert(r) {
+            return;
+        }
+        self.all.push(r);
+        let ctx = &self.run.ctx;
+        match guarded(|| ExprRef::from(r).get_type(ctx)) {
+            Ok(Type::BV(w)) if w > 0 && w <= 600 => self.bv.entry(w).or_default().push(r),
+            Ok(Type::Array(a)) if a.index_width > 0 && a.data_width > 0 && a.index_width <= 128 && a.data_width <= 600 => self.arr.entry((a.index_width, a.data_width)).or_default().push(r),
+            Ok(_) => {}
+            Err(_) => {}
+        }
+    }
+
+    fn width(&mut self) -> u32 {
+        *self.rng.pick(&WIDTHS)
+    }
+
+    fn name(&mut self) -> String {
+        if !self.names.is_empty() && self.rng.chance(1, 2) {
+            return self.rng.pick(&self.names).clone();
+        }
+        let n = match self.rng.below(12) {
+            0 => "".to_string(),
+            1 => "a b".to_string(),
+            2 => "x\"y\\z".to_string(),
+            3 => "\u{e9}\u{4e16}".to_string(),
+            4 => "A".to_string(),
+            5 => "a".to_string(),
+            _ => {
+                self.fresh += 1;
+                format!("s{}", self.fresh)
+            }
+        };
+        self.names.push(n.clone());
+        n
+    }
+
+    /// a reference of bit-vector width w (creating a symbol or literal if none exists yet)
+    fn bv_ref(&mut self, w: u32) -> usize {
+        if let Some(v) = self.bv.get(&w) {
+            if !v.is_empty() && !self.rng.chance(1, 12) {
+                // prefer recent and very old entries alike
+                return *self.rng.pick(v);
+            }
+        }
+        let op = if self.rng.chance(1, 2) { Op::BvSym(self.name(), w) } else { self.lit_op(w) };
+        match self.issue(op, false) {
+            Out::E(r) => r,
+            _ => 0,
+        }
+    }
+
+    fn some_bv_width(&mut self) -> u32 {
+        let ks: Vec<u32> = self.bv.keys().copied().collect();
+        if ks.is_empty() || self.rng.chance(1, 8) { self.width() } else { *self.rng.pick(&ks) }
+    }
+
+    fn arr_ref(&mut self, iw: u32, dw: u32) -> usize {
+        if let Some(v) = self.arr.get(&(iw, dw)) {
+            if !v.is_empty() && !self.rng.chance(1, 6) {
+                return *self.rng.pick(v);
+            }
+        }
+        let op = if self.rng.chance(1, 2) {
+            Op::ArrSym(self.name(), iw, dw)
+        } else {
+            let e = self.bv_ref(dw);
+            Op::AConst(e, iw)
+        };
+        match self.issue(op, false) {
+            Out::E(r) => r,
+            _ => 0,
+        }
+    }
+
+    fn some_arr_type(&mut self) -> (u32, u32) {
+        let ks: Vec<(u32, u32)> = self.arr.keys().copied().collect();
+        if ks.is_empty() || self.rng.chance(1, 5) {
+            (self.rng.range(1, 6) as u32, self.width())
+        } else {
+            *self.rng.pick(&ks)
+        }
+    }
+
+    fn target_bits(&mut self, w: u32) -> String {
+        let pool = self.targets.entry(w).or_default();
+        if !pool.is_empty() && self.rng.chance(3, 5) {
+            return self.rng.pick(pool).clone();
+        }
+        let bits = match self.rng.below(4) {
+            0 => {
+                // small numbers: the `< 8` fast path and its neighbours
+                let v = self.rng.below(20);
+                if w >= 64 || v < (1u64 << w) { format!("{:0width$b}", v, width = w as usize) } else { lit_value(self.rng, w).to_bit_str() }
+            }
+            _ => lit_value(self.rng, w).to_bit_str(),
+        };
+        let pool = self.targets.entry(w).or_default();
+        if pool.len() < 12 {
+            pool.push(bits.clone());
+        }
+        bits
+    }
+
+    fn lit_op(&mut self, w: u32) -> Op {
+        let bits = self.target_bits(w);
+        match self.rng.below(12) {
+            0 if bits.bytes().all(|b| b == b'0') => return Op::Zero(w),
+            1 if bits.bytes().all(|b| b == b'1') => return Op::Ones(w),
+            2 if w <= 128 => {
+                let mut v: u128 = 0;
+                for b in bits.bytes() {
+                    v = (v << 1) | (b == b'1') as u128;
+                }
+                // from_u128 looks only at the low word when the width is at most 64: garbage above bit 63 is dropped
+                if w <= 64 && self.rng.chance(1, 3) {
+                    v |= (1 + self.rng.below(1000) as u128) << 64;
+                }
+                return Op::BitVecVal(v, w);
+            }
+            _ => {}
+        }
+        for _ in 0..6 {
+            let route = *self.rng.pick(&ROUTES);
+            let rng = &mut *self.rng;
+            if route == "shl_words" && !rng.chance(1, 5) {
+                // direct use of baa's whole-word shift (a recorded dependency defect): keep it rare
+                continue;
+            }
+            let mut label = route.to_string();
+            let mut via = None;
+            let produced = guarded(|| value_via(rng, &bits, route, &mut label, &mut via));
+            match produced {
+                Ok(Some(v)) => {
+                    if v.width() != w {
+                        continue;
+                    }
+                    let api = self.rng.below(4) as u8;
+                    let produced_bits = v.to_bit_str();
+                    let pool = self.targets.entry(w).or_default();
+                    if produced_bits != bits && pool.len() < 16 {
+                        pool.push(produced_bits);
+                    }
+                    return Op::Lit { w, words: v.words().to_vec(), route: label, api, via };
+                }
+                Ok(None) => continue,
+                Err(_) => continue, // a baa operation panicked while producing the value: not this property's business
+            }
+        }
+        let v = from_bits(&bits);
+        Op::Lit { w, words: v.words().to_vec(), route: "direct".into(), api: 0, via: None }
+    }
+
+    fn lit_arr_op(&mut self) -> Op {
+        let dw = self.width();
+        if self.rng.chance(1, 4) {
+            // dense table: data width 1 (bit table), 2..8 (u8 table: baa's dense->sparse conversion indexes a
+            // [usize; 8] by the data byte and panics for bytes >= 8, a recorded dependency defect) or > 8 (word tables)
+            let iw = self.rng.range(1, 3) as u32;
+            let dw = if self.rng.chance(1, 2) { 1 } else { *self.rng.pick(&[2u32, 3, 4, 8, 9, 16, 33, 64, 65, 100]) };
+            // a strict majority value, so that the default chosen by baa is determined
+            let n = 1usize << iw;
+            let major = lit_value(self.rng, dw);
+            let mut table: Vec<Words> = vec![major.words().to_vec(); n];
+            let others = self.rng.below((n as u64 + 1) / 2) as usize; // < n/2 differing entries
+            for k in 0..others {
+                let mut v = lit_value(self.rng, dw);
+                if v.words() == major.words() {
+                    v = major.not();
+                }
+                table[(k * 2 + 1) % n] = v.words().to_vec();
+            }
+            // data width 1 with exactly n/2 ones is a tie: keep a strict majority
+            return Op::LitArr { iw, dw, dense: Some(table), default: vec![], entries: vec![] };
+        }
+        let iw = *self.rng.pick(&[1u32, 2, 4, 8, 32, 64, 65, 100]);
+        let default = lit_value(self.rng, dw);
+        let k = match self.rng.below(10) {
+            0..=3 => 0,
+            4..=7 => 1,
+            8 => 2,
+            _ => self.rng.range(2, 5) as usize,
+        };
+        let mut entries: Vec<(Words, Words)> = vec![];
+        for _ in 0..k {
+            let i = lit_value(self.rng, iw);
+            let mut d = lit_value(self.rng, dw);
+            if d.words() == default.words() {
+                d = default.not();
+            }
+            if entries.iter().all(|(j, _)| j != &i.words().to_vec()) {
+                entries.push((i.words().to_vec(), d.words().to_vec()));
+            }
+        }
+        Op::LitArr { iw, dw, dense: None, default: default.words().to_vec(), entries }
+    }
+
+    fn any_ref(&mut self) -> usize {
+        if self.rng.chance(1, 4) || self.all.is_empty() {
+            FORGED_BASE + self.rng.below(1000) as usize
+        } else {
+            *self.rng.pick(&self.all)
+        }
+    }
+
+    fn gen_ill_typed(&mut self) -> Op {
+        let (a, b, c) = (self.any_ref(), self.any_ref(), self.any_ref());
+        match self.rng.below(24) {
+            0 => Op::Equal(a, b),
+            1 => Op::Ite(a, b, c),
+            2 => Op::Implies(a, b),
+            3 => Op::Gt(a, b),
+            4 => Op::Sgt(a, b),
+            5 => Op::Not(a),
+            6 => Op::Neg(a),
+            7 => Op::Concat(a, b),
+            8 => Op::Slice(a, self.rng.below(70) as u32, self.rng.below(10) as u32),
+            9 => Op::Slice(a, u32::MAX - self.rng.below(2) as u32, self.rng.below(2) as u32),
+            10 => Op::Zext(a, self.rng.below(3) as u32),
+            11 => Op::Sext(a, u32::MAX - self.rng.below(3) as u32),
+            12 => Op::Store(a, b, c),
+            13 => Op::AConst(a, self.rng.below(3) as u32),
+            14 => Op::Read(a, b),
+            15 => Op::BvSym(self.name(), 0),
+            16 => Op::ArrSym(self.name(), self.rng.below(2) as u32, self.rng.below(2) as u32),
+            17 => Op::Zero(0),
+            18 => {
+                let hi = if self.rng.chance(1, 2) { (self.rng.next_u64() as u128) << 64 } else { 0 };
+                Op::BitVecVal(hi | self.rng.next_u64() as u128, *self.rng.pick(&[0u32, 1, 5, 8, 63, 64, 65, 100, 127, 128, 129]))
+            }
+            19 => Op::Xor3(a, b, c),
+            20 => Op::Maj(a, b, c),
+            21 => Op::Distinct(a, b),
+            22 => Op::Ge(a, b),
+            _ => Op::Bin(self.rng.below(14) as usize, a, b),
+        }
+    }
+
+    fn gen_op(&mut self) -> (Op, bool) {
+        let bld = self.rng.chance(1, 6);
+        // rebuild an earlier call verbatim
+        if !self.history.is_empty() && self.rng.chance(1, 4) {
+            let n = self.history.len() as u64;
+            let k = if self.rng.chance(1, 2) { self.rng.below(n.min(64)) } else { self.rng.below(n) } as usize;
+            let (op, b, _) = self.history[k].clone();
+            return (op, if self.rng.chance(1, 2) { b } else { bld });
+        }
+        if self.rng.below(1000) < self.ill {
+            return (self.gen_ill_typed(), bld);
+        }
+        let op = match self.rng.below(100) {
+            0..=3 => Op::Str(self.name()),
+            4..=10 => Op::BvSym(self.name(), self.width()),
+            11..=13 => {
+                let (iw, dw) = (self.rng.range(1, 6) as u32, self.width());
+                Op::ArrSym(self.name(), iw, dw)
+            }
+            14..=15 => {
+                let known: Vec<usize> = (0..self.run.srefs.len()).filter(|i| self.run.srefs[*i].is_some()).collect();
+                if known.is_empty() {
+                    Op::Str(self.name())
+                } else {
+                    let n = *self.rng.pick(&known);
+                    if self.rng.chance(2, 3) {
+                        Op::SymBv(n, self.width())
+                    } else {
+                        Op::SymArr(n, self.rng.below(4) as u32, self.rng.below(4) as u32 * 8)
+                    }
+                }
+            }
+            16..=31 => {
+                let w = self.width();
+                self.lit_op(w)
+            }
+            32 => Op::One(self.width()),
+            33 => Op::Zero(self.width()),
+            34 => Op::Ones(self.width()),
+            35 => Op::ZeroArr(self.rng.range(1, 5) as u32, self.width()),
+            36..=37 => self.lit_arr_op(),
+            38 => Op::True,
+            39 => Op::False,
+            40..=42 => {
+                if self.rng.chance(1, 4) {
+                    let (iw, dw) = self.some_arr_type();
+                    Op::Equal(self.arr_ref(iw, dw), self.arr_ref(iw, dw))
+                } else {
+                    let w = self.some_bv_width();
+                    Op::Equal(self.bv_ref(w), self.bv_ref(w))
+                }
+            }
+            43 => {
+                let w = self.some_bv_width();
+                Op::Distinct(self.bv_ref(w), self.bv_ref(w))
+            }
+            44..=47 => {
+                let c = self.bv_ref(1);
+                if self.rng.chance(1, 4) {
+                    let (iw, dw) = self.some_arr_type();
+                    Op::Ite(c, self.arr_ref(iw, dw), self.arr_ref(iw, dw))
+                } else {
+                    let w = self.some_bv_width();
+                    Op::Ite(c, self.bv_ref(w), self.bv_ref(w))
+                }
+            }
+            48 => Op::Implies(self.bv_ref(1), self.bv_ref(1)),
+            49..=52 => {
+                let w = self.some_bv_width();
+                let (a, b) = (self.bv_ref(w), self.bv_ref(w));
+                match self.rng.below(4) {
+                    0 => Op::Gt(a, b),
+                    1 => Op::Sgt(a, b),
+                    2 => Op::Ge(a, b),
+                    _ => Op::Sge(a, b),
+                }
+            }
+            53..=55 => {
+                let w = self.some_bv_width();
+                if self.rng.chance(1, 2) { Op::Not(self.bv_ref(w)) } else { Op::Neg(self.bv_ref(w)) }
+            }
+            56..=73 => {
+                let w = self.some_bv_width();
+                Op::Bin(self.rng.below(14) as usize, self.bv_ref(w), self.bv_ref(w))
+            }
+            74 => {
+                let w = self.some_bv_width();
+                Op::Xor3(self.bv_ref(w), self.bv_ref(w), self.bv_ref(w))
+            }
+            75 => {
+                let w = self.some_bv_width();
+                Op::Maj(self.bv_ref(w), self.bv_ref(w), self.bv_ref(w))
+            }
+            76..=79 => {
+                let (wa, wb) = (self.some_bv_width(), self.some_bv_width());
+                Op::Concat(self.bv_ref(wa), self.bv_ref(wb))
+            }
+            80..=85 => {
+                let w = self.some_bv_width();
+                let e = self.bv_ref(w);
+                match self.rng.below(8) {
+                    0 | 1 => Op::Slice(e, w - 1, 0), // full width: returns e
+                    2 => Op::Slice(e, w - 1, self.rng.below(w as u64) as u32),
+                    3 => Op::Slice(e, self.rng.below(w as u64) as u32, 0),
+                    4 => Op::Slice(e, w + self.rng.below(3) as u32, self.rng.below(2) as u32), // hi beyond the width: accepted by the builder
+                    _ => {
+                        let lo = self.rng.below(w as u64) as u32;
+                        Op::Slice(e, self.rng.range(lo as u64, w as u64 - 1) as u32, lo)
+                    }
+                }
+            }
+            86..=90 => {
+                let w = self.some_bv_width();
+                let e = self.bv_ref(w);
+                let by = if self.rng.chance(1, 3) { 0 } else { *self.rng.pick(&[1u32, 2, 7, 31, 32, 63, 64, 65]) };
+                match self.rng.below(3) {
+                    0 => Op::Zext(e, by),
+                    1 => Op::Sext(e, by),
+                    _ => Op::Ext(e, by, self.rng.chance(1, 2)),
+                }
+            }
+            91..=93 => {
+                let (iw, dw) = self.some_arr_type();
+                Op::Store(self.arr_ref(iw, dw), self.bv_ref(iw), self.bv_ref(dw))
+            }
+            94..=95 => {
+                let w = self.some_bv_width();
+                Op::AConst(self.bv_ref(w), self.rng.range(1, 6) as u32)
+            }
+            _ => {
+                let (iw, dw) = self.some_arr_type();
+                Op::Read(self.arr_ref(iw, dw), self.bv_ref(iw))
+            }
+        };
+        (op, bld)
+    }
+
+    fn issue(&mut self, op: Op, bld: bool) -> Out {
+        let before = self.run.known_len;
+        let out = self.run.step(&op, bld);
+        if let Out::E(r) = &out {
+            if *r < FORGED_BASE {
+                self.pool(*r);
+            }
+        }
+        self.history.push((op, bld, before));
+        out
+    }
+}
+
+fn bucket(n: usize) -> &'static str {
+    match n {
+        0 => "0",
+        1..=9 => "1-9",
+        10..=99 => "10-99",
+        100..=999 => "100-999",
+        1000..=9999 => "1e3-1e4",
+        10000..=99999 => "1e4-1e5",
+        _ => ">=1e5",
+    }
+}
+
+fn gen_history(id: &str, rng: &mut Rng, len: usize, ill: u64, stats: &mut Stats) -> String {
+    let run = Run::new();
+    let tf0 = (usize::from(run.ctx.get_true()), usize::from(run.ctx.get_false()));
+    let mut g = Gen {
+        rng,
+        run,
+        history: vec![],
+        bv: BTreeMap::new(),
+        arr: BTreeMap::new(),
+        all: vec![],
+        pooled: HashSet::new(),
+        names: vec![],
+        targets: BTreeMap::new(),
+        fresh: 0,
+        ill,
+    };
+    g.pool(0);
+    g.pool(1);
+    // first results of every distinct call text, to measure rebuild distances
+    let mut first: HashMap<String, (String, usize)> = HashMap::new();
+    while g.history.len() < len {
+        let (op, bld) = g.gen_op();
+        let name = op_name(&op);
+        let before = g.run.known_len;
+        let out = g.issue(op.clone(), bld);
+        stats.bump("ops", name);
+        if bld {
+            stats.inc("calls_through_Builder");
+        }
+        let after = g.run.known_len;
+        let res = format!("{:?}", out);
+        let text = dump_op(&op, false, None);
+        match &out {
+            Out::P(loc) => stats.bump("panic_locations", loc),
+            Out::E(_) => {
+                stats.bump("outcome", if after > before { "new node(s)" } else { "existing reference" });
+            }
+            Out::S(_) => stats.bump("outcome", "string"),
+        }
+        if let Op::Lit { w, words, route, .. } = &op {
+            stats.bump("literal_routes", route);
+            stats.bump("literal_widths", &format!("{w}"));
+            stats.bump(
+                "interner_path",
+                if words.len() == 1 {
+                    if words[0] < 8 { "one word < 8" } else { "one word (small table)" }
+                } else {
+                    "several words (large table)"
+                },
+            );
+        }
+        if let Op::LitArr { dense, entries, .. } = &op {
+            stats.bump("lit_array_shape", &if dense.is_some() { "dense".to_string() } else { format!("sparse {} entries", entries.len()) });
+        }
+        match first.get(&text) {
+            Some((r0, size0)) => {
+                if matches!(out, Out::E(_) | Out::S(_)) {
+                    stats.bump("rebuild_distance(insertions between first build and rebuild)", bucket(before - size0));
+                    if *r0 != res {
+                        // the only calls allowed to differ: lit(array value) with >= 2 entries (store order = HashMap
+                        // iteration order) and calls whose first issue panicked
+                        let multi = matches!(&op, Op::LitArr { dense, entries, .. } if dense.is_some() || entries.len() >= 2);
+                        stats.inc(if multi {
+                            "lit_array_same_value_other_store_order"
+                        } else if r0.starts_with("P(") {
+                            "rebuild_after_panic"
+                        } else {
+                            "rebuilds_with_different_result"
+                        });
+                    }
+                }
+            }
+            None => {
+                first.insert(text, (res, before));
+            }
+        }
+    }
+    stats.bump("history_length", bucket(len));
+    stats.bump("table_size_at_end", bucket(g.run.table_len()));
+    g.run.finish(id, tf0)
+}
+
+fn replay_history(c: &Sexp) -> String {
+    let id = c.list()[1].atom().to_string();
+    let mut run = Run::new();
+    let tf0 = (usize::from(run.ctx.get_true()), usize::from(run.ctx.get_false()));
+    for o in c.field("ops").unwrap_or(&[]) {
+        let (op, bld) = parse_op(o);
+        // a symbol(name) call needs a StringRef the replayed history has produced
+        let usable = match &op {
+            Op::SymBv(n, _) | Op::SymArr(n, _, _) => run.srefs.get(*n).map(|s| s.is_some()).unwrap_or(false),
+            _ => true,
+        };
+        if usable {
+            run.step(&op, bld);
+        }
+    }
+    run.finish(&id, tf0)
+}
+
+pub fn run(args: &Args) {
+    if std::env::var("C12_DEBUG").is_ok() {
+        // debugging aid: show every panic (caught ones included)
+        std::panic::set_hook(Box::new(|info| {
+            eprintln!("panic: {info}");
+        }));
+    }
+    if args.get("demo").is_some() {
+        demo_finding();
+        return;
+    }
+    let mut rng = Rng::new(args.seed);
+    let mut out = std::io::BufWriter::new(std::fs::File::create(&args.out).expect("out file"));
+    let mut stats = Stats::default();
+    let mut distinct = HashSet::new();
+    if let Some(path) = args.get("cases-in") {
+        for c in read_cases(path).iter() {
+            let line = replay_history(c);
+            distinct.insert(line[line.find("(ops").unwrap_or(0)..].to_string());
+            stats.sample(&line, 3);
+            writeln!(out, "{line}").unwrap();
+        }
+    }
+    let min_len = args.get_u64("minlen", 20) as usize;
+    let max_len = args.get_u64("maxlen", 400) as usize;
+    let ill = args.get_u64("ill", 40);
+    for id in 0..args.count {
+        let mut r = rng.fork();
+        let len = if max_len <= min_len { min_len } else { r.range(min_len as u64, max_len as u64) as usize };
+        let line = gen_history(&format!("{id}"), &mut r, len, ill, &mut stats);
+        let mut h = std::collections::hash_map::DefaultHasher::new();
+        std::hash::Hash::hash(&line[line.find("(ops").unwrap_or(0)..], &mut h);
+        distinct.insert(format!("{:x}", std::hash::Hasher::finish(&h)));
+        stats.sample(&line, 3);
+        writeln!(out, "{line}").unwrap();
+    }
+    stats.add("distinct_cases", distinct.len() as u64);
+    stats.write(&args.out);
+}
+
+/// `verif-harness C12 --demo 1`: the recorded finding, reproduced with patronus' public API only
+fn demo_finding() {
+    let mut ctx = Context::default();
+    let a = ctx.bv_lit(&BitVecValue::from_u64(3, 65));
+    let k = ctx.bv_lit(&BitVecValue::from_u64(64, 65));
+    let e = ctx.shift_left(a, k);
+    let folded = simplify_single_expression(&mut ctx, e);
+    let canonical = ctx.bv_lit(&from_bits(&format!("1{}", "0".repeat(64))));
+    let evaluated = eval_bv_expr(&ctx, &SymbolValueStore::default(), e);
+    let via_eval = ctx.bv_lit(&evaluated);
+    let show = |r: ExprRef| match &ctx[r] {
+        Expr::BVLiteral(v) => format!("{:?} = {:?} bits={} words={:?}", r, ctx[r], v.get(&ctx).to_bit_str(), v.get(&ctx).words()),
+        other => format!("{:?} = {:?}", r, other),
+    };
+    println!("simplify(shift_left(65'h3, 65'd64)) -> {}", show(folded));
+    println!("bv_lit(65'h1_0000000000000000)      -> {}", show(canonical));
+    println!("bv_lit(eval(shift_left(..)))        -> {}", show(via_eval));
+    {
+        // baa's dense -> sparse conversion of the u8 table, reached through Context::lit
+        let mut a = ArrayValue::new_dense(2, &BitVecValue::from_u64(9, 4));
+        a.store(&BitVecValue::from_u64(1, 2), &BitVecValue::from_u64(3, 4));
+        let mut c2 = Context::default();
+        let r = guarded(|| c2.lit(Value::Array(a)));
+        println!("lit(dense bv<2> -> bv<4> array [9,3,9,9]) -> {:?} at {}", r.map(|e| format!("{e:?}")), last_panic_loc());
+    }
+    println!("same reference: {}   same printed value: {}", folded == canonical, {
+        let (x, y) = (show(folded), show(canonical));
+        x.split("bits=").nth(1).unwrap().split(' ').next().unwrap() == y.split("bits=").nth(1).unwrap().split(' ').next().unwrap()
+    });
 }
